@@ -62,6 +62,11 @@ class RunnerClient(Client):
     def descend(self, fi: FuncInfo, ev: Event) -> bool:
         return fi.module.name in RUN_MODULES
 
+    def relevant_iter(self, ev: Event) -> bool:
+        # the attempt loop iterates range(...); loops over containers in helpers (copying tags, scanning hooks) are incidental
+        it = ev.node.info.get("iter")
+        return isinstance(it, ast.Call) and isinstance(it.func, ast.Name) and it.func.id == "range"
+
     def callback_kinds(self, category: str, ev: Event) -> Iterable[str]:
         return self.fault.get(category, self.fault.get("*", ()))
 
